@@ -49,6 +49,13 @@ def gen_cases(chk):
             for r in (8e-6, 3e-6, 1e-3):
                 cfg = "szMode=SZ_BEST_SPEED" if r < 1e-5 else "szMode=SZ_BEST_SPEED;accelerate_pw_rel_compression=0"
                 cases.append("pw %x %s %s %s 10 %x %d" % (ty, dims, dbits(r), cfg, rng.getrandbits(16), rng.choice((100, 60))))
+    # the same fields on the accelerated (MSST19) path, with magnitudes far outside the single-precision range for double data
+    for t in ((4096,), (64, 64), (8, 16, 32), (4, 8, 8, 16)):
+        dims = ",".join("%x" % v for v in [0] * (5 - len(t)) + list(t))
+        for ty, spans in ((0, (100,)), (1, (100, 300, 900))):
+            for span in spans:
+                for r in (1e-3, 1e-2):
+                    cases.append("pw %x %s %s %s 10 %x %d" % (ty, dims, dbits(r), rng.choice(("szMode=SZ_BEST_SPEED", "-")), rng.getrandbits(16), span))
     n = 1500 if thorough else 260
     for _ in range(n):
         t = rng.choice(SHAPES)
